@@ -265,7 +265,8 @@ def monRate (path : String) (viaRecord : Bool) (client carried traceRate : Nat) 
 def monReason (m : MSt) (path : String) (o : OSpan) (reason sendReason key : Option String) : List Fail :=
   if m.cfg.reason then
     (if o.get kReason != reason then
-      [mkFail "C06" s!"C06:reason:path={path}" s!"span {o.sid}: {kReason} = {o.get kReason}, decision reason {reason}"] else []) ++
+      [mkFail "C06" (s!"C06:reason:path={path}" ++ (if m.kept.length > 255 then ":many-reasons" else ""))
+        s!"span {o.sid}: {kReason} = {o.get kReason}, decision reason {reason} ({m.kept.length} kept decisions so far)"] else []) ++
     (if o.get kSendReason != sendReason then
       [mkFail "C06" s!"C06:send-reason:path={path}" s!"span {o.sid}: {kSendReason} = {o.get kSendReason}, expected {sendReason}"] else []) ++
     (if o.get kSampleKey != key then
